@@ -853,6 +853,72 @@ def C13(ck):
 LEVEL['C12'] = 'exploration'
 
 
+def _alphabet_header(ck, T):
+    """KzAlphabet: EncodeAlphabet / DecodeAlphabet transcribed; every alphabet over 16 symbols model-checked (inverse, bit-exact
+    consumption, increasing order, sizes); alphabets through the real functions judged by Trace_Alphabet (NM = 32)."""
+    import re
+    from concurrent.futures import ThreadPoolExecutor
+    rnd = random.Random(ck.seed * 17 + 1)
+    c = 'CONSTANTS\n NM = 2\n LB = 1\nSPECIFICATION Spec\nINVARIANTS Inverse Ordered Size\nCHECK_DEADLOCK FALSE\n'
+    with ThreadPoolExecutor(max_workers=1) as ex:
+        fut = ex.submit(kzv.tlc, 'KzAlphabet', c, 6, 1800, None, None, None, False, '3g')
+        cases = [[], list(range(256))]
+        for k in range(256):
+            cases += [[k], list(range(k + 1)), list(range(k, 256))]
+            if k > 0:
+                cases.append([x for x in range(256) if x != k])
+        for step in (2, 3, 7, 8, 9, 16, 31, 32, 33, 64, 255):
+            for off in range(0, min(step, 9)):
+                cases.append(list(range(off, 256, step)))
+        for i in range(4000 if T else 600):
+            dens = rnd.choice((0.01, 0.05, 0.3, 0.5, 0.9, 0.99))
+            hi = rnd.choice((8, 16, 17, 64, 200, 249, 256))
+            lo = rnd.randrange(0, hi)
+            cases.append([x for x in range(lo, hi) if rnd.random() < dens])
+        kzh = kzv.build_harness()
+        base = os.path.join(kzv.BUILD, 'tlc', 'alpha_%d' % os.getpid())
+        nchunks = 8
+        chunks = [cases[i::nchunks] for i in range(nchunks)]
+
+        def judge(i):
+            cf, tf = '%s.%d.cases' % (base, i), '%s.%d.ndjson' % (base, i)
+            with open(cf, 'w') as fh:
+                for k, a in enumerate(chunks[i]):
+                    fh.write(json.dumps({'alpha': a, 'pre': (k * 5 + i) % 64}) + '\n')
+            rc, so, se, dt = kzv.run([kzh, 'alpha', cf, tf], timeout=600)
+            if rc != 0:
+                raise kzv.ToolFailure('alpha driver failed: ' + se[-1000:])
+            res = kzv.validate_trace('Trace_Alphabet', tf, timeout=3000)
+            if res.error or res.violated:
+                raise kzv.ToolFailure('Trace_Alphabet failed: %s %s\n%s' % (res.error, res.violated, res.out[-1500:]))
+            tr = kzv.read_ndjson(tf)
+            v = [(tr[int(x) - 1], p) for x, p in re.findall(r'<<"VIOLATION_AT", (\d+), "([^"]+)">>', res.out)]
+            d = len(re.findall(r'<<"DRIFT_AT", (\d+)>>', res.out))
+            for f in (cf, tf):
+                os.remove(f)
+            return res, v, d
+        with ThreadPoolExecutor(max_workers=nchunks) as ex2:
+            outs = list(ex2.map(judge, range(nchunks)))
+        res0 = fut.result()
+    ck.add_tlc(res0, 'KzAlphabet NM=2 (all 65536 alphabets over 16 symbols)')
+    if not res0.ok:
+        raise kzv.ToolFailure('KzAlphabet fails its own check: ' + res0.out[-1500:])
+    drift = 0
+    for res, v, d in outs:
+        ck.cov['states'] += res.distinct
+        ck.cov['transitions'] += res.generated
+        drift += d
+        for e, pred in v[:3]:
+            ck.violation({'kind': 'alphabet', 'pred': pred, 'alpha': e['alpha'][:24], 'n': len(e['alpha']), 'pre': e['pre'], 'err': e.get('encErr') or e.get('decErr')},
+                         {'cmd': 'alpha', 'event': {k: (x if not isinstance(x, list) else x[:64]) for k, x in e.items()}}, name='alpha')
+    ck.cov['evaluations'] += len(cases)
+    ck.cov['traces_validated_against_impl'] += len(cases)
+    ck.cov['distinct_nontrivial'] += len(set(tuple(a) for a in cases if 0 < len(a) < 256))
+    ck.cov['alphabet_headers'] = {'real_calls': len(cases), 'drift_vs_transcription': drift}
+    if drift:
+        ck.notes.append('%d alphabet headers round-trip but differ bit-wise from KzAlphabet!Enc (drift, not a violation)' % drift)
+
+
 def C12(ck):
     from concurrent.futures import ThreadPoolExecutor
     T = thorough(ck)
@@ -882,6 +948,7 @@ def C12(ck):
             ck.cov['selftest_asis'] = {'violated': res.violated}
             if not res.violated:
                 raise kzv.ToolFailure('vacuity self-test: as-is tables always agree')
+    _alphabet_header(ck, T)
     # (b) the real codecs on the case space, judged by Trace_Entropy
     kzh = kzv.build_harness()
     base = os.path.join(kzv.BUILD, 'tlc', 'ent_%d' % os.getpid())
